@@ -40,6 +40,8 @@ def main():
             ok_base = 'test result: ok' in out and 'FAILED' not in out
             res['steps'].append({'step': 'demo on unmodified tree', 'pass': ok_base, 'tail': out[-1500:]})
             rc, out = sh('git apply %s' % os.path.join(sd, 'patch.diff'))
+            if rc != 0:
+                rc, out = sh('patch -p1 -F3 --no-backup-if-mismatch < %s' % os.path.join(sd, 'patch.diff'))
             res['steps'].append({'step': 'patch applies to HEAD', 'pass': rc == 0, 'tail': out[-800:]})
             if rc == 0:
                 rc, out = sh('cargo build --offline %s 2>&1 | tail -5' % feats)
